@@ -468,6 +468,16 @@ def long_axis(cfg, rng):
     return c
 
 
+def safe_predict(cfg, rng, *a, **kw):
+    """an exception inside the implementation while a prediction is being checked is a violation with a replayable input, not a crash"""
+    try:
+        return predict(cfg, rng, *a, **kw)
+    except Exception as e:
+        import traceback
+        return [dict(key='exception', what='%s raised while the predictions were being checked: %s' % (type(e).__name__, str(e)[:300]), cfg=jsonable(cfg),
+                     thorough=bool(kw.get('thorough')), trace=traceback.format_exc()[-1200:])], 0
+
+
 def main():
     ap = argparse.ArgumentParser()
     for a_ in ('--mode', '--hint', '--file', '--tier'):
@@ -481,7 +491,7 @@ def main():
     if a.mode == 'replay':
         f = (json.load(open(a.file)).get('failing') or {})
         if f.get('cfg'):
-            res['violations'], res['predictions_checked'] = predict(f['cfg'], rng, thorough=bool(f.get('thorough')), sub=f.get('sub'), other=f.get('other'))
+            res['violations'], res['predictions_checked'] = safe_predict(f['cfg'], rng, thorough=bool(f.get('thorough')), sub=f.get('sub'), other=f.get('other'))
         print(json.dumps(res, default=str)); return
     t0 = time.time(); tried = 0
     nn = a.n if a.mode == 'check' else 10 ** 6
@@ -502,7 +512,7 @@ def main():
         key = '%s/%s/%s/nfp%d/nfourier%d' % ('QH' if q.helicity else 'QA', 'asym' if q.lasym else 'sym', cfg['order'], cfg['nfp'], q.nfourier)
         dist[key] = dist.get(key, 0) + 1
         res['configs'] += 1
-        v, n = predict(cfg, rng, q, thorough=(a.tier == 'thorough'), stats=stats)
+        v, n = safe_predict(cfg, rng, q, thorough=(a.tier == 'thorough'), stats=stats)
         res['predictions_checked'] += n; res['violations'] += v
         if len(res['samples']) < 3:
             res['samples'].append(dict(cfg=jsonable(cfg)))
